@@ -189,6 +189,17 @@ impl HostTimer {
         self.now.replace(now);
     }
 
+    /// [`Self::since_epoch`] as of the start of the current tick.
+    ///
+    /// Unlike [`Self::since_epoch`] this does not read the host runtime's
+    /// clock. `Instant::elapsed` falls back to the wall clock when it is
+    /// called outside the runtime's context, which made the `now` handed to
+    /// the filesystem and io_uring simulations depend on real time.
+    #[cfg(feature = "unstable-fs")]
+    pub(crate) fn since_epoch_at_tick_start(&self) -> Duration {
+        self.since_epoch + self.start_offset + self.elapsed
+    }
+
     /// Returns how long the host has been executing for in virtual time.
     pub(crate) fn elapsed(&self) -> Duration {
         let run_duration = self.now.expect("host instant not set").elapsed();
